@@ -26,6 +26,7 @@ func init() {
 	verifRegister("VerifC08_MSM4_PhaseRange", VerifC08_MSM4_PhaseRange)
 	verifRegister("VerifC08_MSM4_vs_MSM7", VerifC08_MSM4_vs_MSM7)
 	verifRegister("VerifC08_Wavelength", VerifC08_Wavelength)
+	verifRegister("VerifC08_WavelengthAfterAnother", VerifC08_WavelengthAfterAnother)
 	verifRegister("VerifC08_ApproxRange", VerifC08_ApproxRange)
 }
 
@@ -274,6 +275,26 @@ func VerifC08_Wavelength() {
 		verifAssert("wavelength-undefined-signal-is-zero", got == 0)
 	} else {
 		verifAssert("wavelength-is-c-over-f", got == c08C/f)
+	}
+}
+
+// The wavelength of a signal does not depend on what was looked up before
+// (a table built lazily, a cache): a lookup of any (constellation, signal id)
+// comes first, then the subject as above.
+func VerifC08_WavelengthAfterAnother() {
+	names := []string{"GPS", "Galileo", "Glonass", "Beidou"}
+	c0 := verifParam("constellation-before", 0, 3)
+	id0 := verifUint("signalID-before")
+	_ = utils.GetSignalWavelength(names[c0], id0)
+	c := verifParam("constellation", 0, 3)
+	id := verifUint("signalID")
+	verifWitness("reached")
+	got := utils.GetSignalWavelength(names[c], id)
+	f := c08Frequency(c, id)
+	if f == 0 {
+		verifAssert("wavelength-undefined-signal-is-zero-after-another-lookup", got == 0)
+	} else {
+		verifAssert("wavelength-is-c-over-f-after-another-lookup", got == c08C/f)
 	}
 }
 
